@@ -106,4 +106,6 @@ func (s RegistrySourceFinal) FinalSourceAddr(realSource RemoteSource) RemoteSour
 // finalRegistrySourcePattern is a non-exhaustive regexp which looks only for
 // the expected three components of a RegistrySourceFinal string encoding: the
 // package address, version, and subpath. The subpath is optional.
-var finalRegistrySourcePattern = regexp.MustCompile(`^(.+)@([^/]+)(//(.+))?$`)
+// The version is introduced by the first "@": a registry package address
+// cannot contain one, but a sub-path can (and it can contain a newline, too).
+var finalRegistrySourcePattern = regexp.MustCompile(`(?s)^([^@]+)@([^/]+)(//(.+))?$`)
